@@ -29,6 +29,7 @@ use domain::dnssec::validator::base::{DnskeyExt, RrsigExt};
 use domain::rdata::dnssec::Timestamp;
 use domain::rdata::{AllRecordData, Dnskey, Rrsig, ZoneRecordData};
 use dv_harness::*;
+use octseq::OctetsFrom;
 use std::cell::RefCell;
 
 type Lab = Vec<u8>;
@@ -384,7 +385,7 @@ fn load_bind_key(repo: &str, base: &str) -> Option<KeyPair> {
 fn rec_words(owner: &[u8], t: u16, c: u16, ttl: u32, crd: &[u8]) -> String {
     format!(" {} {} {} {} {}", hex(owner), t, c, ttl, hex(crd))
 }
-fn sig_fields(s: &Sig) -> SigF {
+fn sig_fields<O, N: ToName>(s: &Rrsig<O, N>) -> SigF {
     SigF { tc: s.type_covered().to_int(), alg: s.algorithm().to_int(), labels: s.labels(), ottl: s.original_ttl().as_secs(),
            exp: s.expiration().into_int(), inc: s.inception().into_int(), kt: s.key_tag(),
            signer: labels_of(s.signer_name()) }
@@ -558,6 +559,56 @@ fn run_rrset(out: &mut Out, r: &mut Rng, cx: &mut Ctx, idx: u64) {
                 }
                 out.check(true, "honest", &c, "");
                 if honest.is_none() || *tname == "all" { honest = Some((seen, sd)); }
+            }
+        }
+    }
+    // the RRSIG itself travels too: RRset and RRSIG in one message (the signer name possibly a compression
+    // pointer), parsed, and turned into an owned value by each conversion the library offers; every path must
+    // give back the same fields and signature, and the RRset must still verify under what came back
+    if let Some((seen, sd0)) = &honest {
+        let mut head = u16b(f.tc); head.push(f.alg); head.push(f.labels); head.extend(f.ottl.to_be_bytes());
+        head.extend(f.exp.to_be_bytes()); head.extend(f.inc.to_be_bytes()); head.extend(u16b(f.kt));
+        let sg = sig.signature().as_ref().to_vec();
+        let mut with_sig: Vec<Rec> = plain.clone();
+        with_sig.push(Rec { owner: plain[0].owner.clone(), class, ttl, rtype: 46,
+            data: vec![Part::Raw(head), Part::Name { n: f.signer.clone(), lower: true, compress: true }, Part::Raw(sg.clone())] });
+        for compress in [false, true] {
+            let msg = message(&with_sig, compress);
+            let mut paths: Vec<(&'static str, SigF, Vec<u8>, Result<Vec<u8>, String>)> = vec![];
+            let run = |s: &dyn Fn(&mut Vec<u8>, &mut [VRec])| -> Result<Vec<u8>, String> {
+                let mut recs: Vec<VRec> = seen.clone();
+                catch_mut(move || { let mut buf: Vec<u8> = vec![]; s(&mut buf, &mut recs[..]); buf })
+            };
+            if let Ok(all) = parse_resolver(&msg) {
+                if let Some(AllRecordData::Rrsig(p)) = all.last().map(|x| x.data().clone()) {
+                    let p0 = p.clone();
+                    paths.push(("parsed", sig_fields(&p0), p0.signature().as_ref().to_vec(), run(&|b, rs| { p0.signed_data(b, rs).unwrap(); })));
+                    let fl: Rrsig<Bytes, Name<Bytes>> = p.clone().flatten_into();
+                    paths.push(("flatten", sig_fields(&fl), fl.signature().as_ref().to_vec(), run(&|b, rs| { fl.signed_data(b, rs).unwrap(); })));
+                    let rec_all: Record<Name<Bytes>, AllRecordData<Bytes, Name<Bytes>>> = Record::new(to_name(&plain[0].owner), domain::base::iana::Class::from_int(class), Ttl::from_secs(ttl), AllRecordData::Rrsig(p.clone())).flatten_into();
+                    if let AllRecordData::Rrsig(x) = rec_all.data() { let x = x.clone();
+                        paths.push(("all_record_data_flatten", sig_fields(&x), x.signature().as_ref().to_vec(), run(&|b, rs| { x.signed_data(b, rs).unwrap(); }))); }
+                }
+            }
+            if let Ok(oc) = Rrsig::<Vec<u8>, Name<Vec<u8>>>::try_octets_from(sig.clone()) {
+                paths.push(("octets_from", sig_fields(&oc), oc.signature().clone(), run(&|b, rs| { oc.signed_data(b, rs).unwrap(); })));
+            }
+            if let Ok(z) = parse_zone(&msg) {
+                if let Some(ZoneRecordData::Rrsig(x)) = z.last().map(|x| x.data().clone()) {
+                    paths.push(("zone_record_data_flatten", sig_fields(&x), x.signature().as_ref().to_vec(), run(&|b, rs| { x.signed_data(b, rs).unwrap(); })));
+                }
+            }
+            out.check(paths.len() >= 5, "rrsig_roundtrip_unparsable", &case, &format!("{} of 5 conversion paths gave an RRSIG (compress {})", paths.len(), compress));
+            for (name, f2, sg2, sd2) in paths {
+                let c = format!("{} rrsig-path {} compress {}", case, name, compress);
+                out.check(f2 == f && sg2 == sg, &format!("rrsig_fields_changed_{}", name), &c, &format!("{:?} vs {:?}", f2, f));
+                match sd2 {
+                    Err(p) => out.check(false, "panic_signed_data", &c, &p),
+                    Ok(sd2) => {
+                        out.check(sd2 == *sd0, &format!("signed_data_differs_after_{}", name), &c, &hex(&sd2));
+                        out.check(lib_verify(&mk_sig(&f2, &sg2), &dnskey, &sd2) == Ok(true), &format!("honest_verify_fails_rrsig_{}", name), &c, "");
+                    }
+                }
             }
         }
     }
